@@ -9,6 +9,7 @@ import (
 	"fmt"
 	"math"
 	"math/big"
+	"strconv"
 	"strings"
 	"time"
 	"unicode/utf8"
@@ -602,6 +603,7 @@ func (g *gen) readableConfig() cfg {
 type caseDesc struct {
 	Config  string `json:"printer"`
 	Object  string `json:"object"`
+	Term    string `json:"object_term"`
 	Via     string `json:"via"`
 	Printed string `json:"printed"`
 	Read    string `json:"read_back"`
@@ -645,7 +647,7 @@ func quoteASCII(s string) string { return fmt.Sprintf("%+q", s) }
 // runCase prints and reads back; viaLisp: through write-to-string / read-from-string.
 func (g *gen) runCase(c cfg, o slip.Object, viaLisp bool) (term string, d caseDesc) {
 	p := c.printer()
-	d = caseDesc{Config: c.String(), Object: quoteASCII(show(o)), Via: "Printer.Append + slip.Read"}
+	d = caseDesc{Config: c.String(), Object: quoteASCII(show(o)), Term: canon(p, o), Via: "Printer.Append + slip.Read"}
 	var text string
 	var printed bool
 	if viaLisp {
@@ -768,7 +770,7 @@ func defaultCfg() cfg {
 func (g *gen) wireCase(o slip.Object) (term string, d caseDesc, ok bool) {
 	c := defaultCfg()
 	p := c.printer()
-	d = caseDesc{Config: c.String() + " (default printer)", Object: quoteASCII(show(o)), Via: "swank.WriteWireMessage + swank.ReadWireMessage"}
+	d = caseDesc{Config: c.String() + " (default printer)", Object: quoteASCII(show(o)), Term: canon(p, o), Via: "swank.WriteWireMessage + swank.ReadWireMessage"}
 	var buf bytes.Buffer
 	var werr error
 	func() {
@@ -786,8 +788,9 @@ func (g *gen) wireCase(o slip.Object) (term string, d caseDesc, ok bool) {
 		return term, d, true
 	}
 	frame := buf.Bytes()
-	if len(frame) < 6 || string(frame[:6]) != fmt.Sprintf("%06X", len(frame)-6) {
-		g.ctx.Violate("wire frame header is not the length of the payload in six upper-case hex digits", d, quoteASCII(string(frame[:min(len(frame), 12)])), fmt.Sprintf("%06X", len(frame)-6))
+	// the header must be what the reader parses: six hexadecimal digits (either case) spelling the payload length
+	if n, err := strconv.ParseUint(string(frame[:min(len(frame), 6)]), 16, 32); len(frame) < 6 || err != nil || int(n) != len(frame)-6 {
+		g.ctx.Violate("wire frame header is not the length of the payload in six hex digits", d, quoteASCII(string(frame[:min(len(frame), 12)])), fmt.Sprintf("%06X", len(frame)-6))
 		return "", d, false
 	}
 	payload := string(frame[6:])
@@ -943,7 +946,7 @@ func Run(ctx *common.Ctx) {
 	ctx.Meta.DistinctNontrivial = len(distinct)
 	ctx.Meta.Rule = "part A: every ASCII character and 15 boundary scalars as a character, inside a string, as a symbol name alone and in a list, under a flat readable and a pretty configuration; part B: integers (boundary, small, int64, up to 200 bits, base^k-1) in every base 2..36 with and without *print-radix*; part C: random objects (depth <= 3, lists, dotted lists, vectors, arrays of rank 2-3; integers, ratios, floats of the three formats, strings and characters over 24 scalar classes, 100 listed symbol names incl. ones needing |quoting| plus random ASCII names, nil, t) x random printer configuration (base 2..36, radix, case 4 values, pretty, right margin 1..200 or nil, readably, escape, array); 40% of the pairs go through write-to-string with every keyword and read-from-string; distinct = distinct (configuration, object, text, read-back) terms"
 	header := "From C03 Require Import Model Spec Corr.\nLocal Open Scope N_scope.\n"
-	footer := "Definition res := Eval vm_compute in check_all cases.\nPrint res.\nDefinition gcount := Eval vm_compute in guard_count cases.\nPrint gcount.\nDefinition outside := Eval vm_compute in outside_failures cases.\nPrint outside.\nDefinition textdiff := Eval vm_compute in text_differences cases.\nPrint textdiff.\n"
+	footer := "Definition res := Eval vm_compute in check_all cases.\nPrint res.\nDefinition gcount := Eval vm_compute in guard_count cases.\nPrint gcount.\nDefinition outside := Eval vm_compute in outside_failures cases.\nPrint outside.\nDefinition textdiff := Eval vm_compute in text_differences cases.\nPrint textdiff.\nDefinition drift := Eval vm_compute in drift_outside_guard cases.\nPrint drift.\n"
 	ctx.WriteShards("cases", header, "case", footer, terms, descs, 16)
 	ctx.ReplayKnownLisp()
 }
